@@ -24,12 +24,10 @@ func c03(c *q.Ctx) {
 
 	commitVersionChecks(c)
 	poolReadmission(c)
-	// ---- doTxInternal: token mutation only after the key/value model accepted
+	nothingAfterCommitPoint(c)
+	xmodelDoUndo(c)
 	do := c.Fn(st + "(*State).doTxInternal")
 	if do != nil {
-		for _, tgt := range []q.Target{q.ToCall("Batch.Delete"), q.ToCall("Batch.Put"), q.ToCall("UtxoVM.AddBalance"), q.ToCall("UtxoVM.SubBalance"), q.ToCall("UtxoCache.Remove")} {
-			c.Gate(do, "XModel.DoTx", tgt, q.Opt{})
-		}
 		c.ArgIs(do, "XModel.DoTx", 2, "p2", 1, "key/value effects go to the caller's batch")
 		c.ArgIs(do, "UtxoVM.CheckInputEqualOutput", 1, "p1", 1, "the transaction checked is the one applied")
 		c.Effect(do, q.Eff{Spec: "Batch.Delete", Arg: 0, Glob: "utxo.GenUtxoKeyWithPrefix(p1.TxInputs[].FromAddr,p1.TxInputs[].RefTxid,p1.TxInputs[].RefOffset)", Why: "every cited output is consumed", Rule: "K2"})
@@ -159,6 +157,13 @@ func commitVersionChecks(c *q.Ctx) {
 	const xm = "bcs/ledger/xledger/state/xmodel::"
 	blockTx := q.Cond{Canon: "(0 < len(p1.Blockid))", Sense: true}
 	poolTx := q.Cond{Canon: "(0 < len(p1.Blockid))", Sense: false}
+	// ---- doTxInternal: token mutation (batch AND the in-memory mirrors, which no caller on the admission path clears)
+	// only after the key/value model accepted the declared reads
+	if do := c.Fn("bcs/ledger/xledger/state::(*State).doTxInternal"); do != nil {
+		for _, tgt := range []q.Target{q.ToCall("Batch.Delete"), q.ToCall("Batch.Put"), q.ToCall("UtxoVM.AddBalance"), q.ToCall("UtxoVM.SubBalance"), q.ToCall("UtxoCache.Remove")} {
+			c.Gate(do, "XModel.DoTx", tgt, q.Opt{})
+		}
+	}
 	// ---- XModel.DoTx: verify before update
 	dt := c.Fn(xm + "(*XModel).DoTx")
 	if dt != nil {
